@@ -33,6 +33,21 @@ Oracles (all independent of the code under test):
       constructed finite-difference solver and leaves the original solver untouched.
 
 Tolerances are propagated per case (see the K_* constants and their calibration notes).
+
+Deviations from DESIGN section 4-C12 (kept here because DESIGN.md is not mine to edit):
+* "condition-number-scaled 1e-9" is realised as K_FWD*eps*kappa_1 for deltaF and, for the
+  derived quantities, as that bound times a sensitivity measured on the real getDeltas with
+  perturbed deviations (rule 2.3-2); ill-conditioned ratios would be counted, not judged
+  (none occurred).
+* the homogeneous clause is judged against the rounding model eps*M^2/a at source level
+  and kappa_1 times that at deltaF level (instead of a flat 1e-10), in both derivative modes;
+* item (5) and the setBackground contract are additions: without them the mutants "T^2
+  dropped", "dm^2/dchi sign in the source" and "boost skipped" listed in DESIGN survive,
+  because they change every basis and both derivative modes alike;
+* violations of (4) are attributed by single-term probes; the mechanism string
+  ``fd-velocity-gradient-taken-from-temperature-profile`` is only used when the
+  finite-difference source is blind to the velocity gradient *and* agrees with the spectral
+  one once the plasma-frame velocity profile is an affine copy of the temperature profile.
 """
 from __future__ import annotations
 
